@@ -27,13 +27,19 @@ EXTRA_ENS={
  'parseRelationships':['result == nil ==> d.relationships != nil'],
 }
 TAIL='''
-// updateNextImageID only sets the image counter (V6 of DESIGN §5 is stated with C10).
+// updateNextImageID only sets the image counter, and sets it above the number of every media part named
+// word/media/image<m>.<anything> of the opened package (C10: mediaFresh, zz_contracts_verif_image.go), whatever
+// other names the package uses for its media.
 //@ func (*Document).updateNextImageID
-//@ props C06
+//@ props C06, C10
 //@ requires d != nil
 //@ modifies Document.nextImageID
+//@ ensures d.nextImageID >= 0
+//@ ensures mediaFresh(d)
 //@ loop 1
 //@   invariant unchangedHeap()
+//@   invariant maxImageID >= -1
+//@   invariant forall m int, e string :: {"word/media/" + ("image" + (itoa(m) + e))} dotExt(e) && seen(imgPart(m, e)) ==> m <= maxImageID
 
 // The opened document is usable: every container the editing and saving code dereferences exists.
 // C04 (pass-through): every entry of the archive is carried into the part map under its name with exactly its
@@ -49,6 +55,7 @@ TAIL='''
 //@ requires forall i int :: 0 <= i && i < len(zipReader.File) ==> zipReader.File[i] != nil
 //@ ensures err == nil ==> docParts(result0)
 //@ ensures err == nil ==> elemsOK(result0.Body.Elements)
+//@ ensures err == nil ==> mediaFresh(result0)   // C10: the image counter is above every word/media/image<m>.<ext> of the package
 //@ ensures err != nil ==> result0 == nil
 //@ ensures err == nil ==> forall i int :: 0 <= i && i < len(zipReader.File) && lastOfName(zipReader.File, i, len(zipReader.File)) ==> has(result0.parts, zipReader.File[i].FileHeader.Name) && partIs(result0.parts[zipReader.File[i].FileHeader.Name], zipReader.File[i])
 //@ ensures err == nil ==> forall k string :: has(result0.parts, k) ==> exists i int :: 0 <= i && i < len(zipReader.File) && zipReader.File[i].FileHeader.Name == k
@@ -63,9 +70,10 @@ TAIL='''
 // Reader embedded in the ReadCloser, an interior pointer the engine does not model, so only
 // OpenFromMemory is under contract.
 //@ func OpenFromMemory
-//@ props C06
+//@ props C06, C10
 //@ requires readCloser != nil
 //@ ensures err == nil ==> docParts(result0) && elemsOK(result0.Body.Elements)
+//@ ensures err == nil ==> mediaFresh(result0)
 //@ ensures err != nil ==> result0 == nil
 '''
 
